@@ -48,6 +48,25 @@ Proof.
 Qed.
 Print Assumptions C02_usage_excludes_enclosing.
 
+(** the enclosing fixture is found on EVERY line of the function, the [def] line and the last
+    line included (a one-line override [def db(db): return db], a parameter sharing the last
+    line with the body): with the previous theorem, a self-named parameter anywhere in the
+    signature goes outward *)
+From PLS Require Import Proofs.SpanLine.
+Theorem C02_enclosing_fixture_found_on_every_line :
+  forall s F line d,
+    In d (defs s) -> d_file d = F -> (d_line d <= line)%N -> (line <= d_end_line d)%N ->
+    (forall d', In d' (defs s) -> spans F line d' = true -> d' = d) ->
+    def_at_line s F line = Some d.
+Proof. exact def_at_line_on_every_line_of_the_function. Qed.
+Print Assumptions C02_enclosing_fixture_found_on_every_line.
+
+(** the half-open reading of the span (seeded changes S110 / S113) loses the last line *)
+Theorem C02_half_open_span_refuted :
+  def_at_line s_one ["conftest.py"; "api"] 4 = Some one_liner /\
+  def_at_line_half_open s_one ["conftest.py"; "api"] 4 = None.
+Proof. exact def_at_line_half_open_refuted. Qed.
+
 (** a test (no enclosing same-named fixture) binds to the innermost visible link: C01 *)
 Theorem C02_test_binds_innermost :
   forall dk roots s F line n,
